@@ -30,7 +30,7 @@ Qed.
 (* what a file-system call of the extension must satisfy *)
 Definition op_ok (root : str) (o : tfs) : Prop :=
   match o with
-  | TOverflow => False
+  | TOverflow | TLostFd => False
   | TStatEntry d n => below_root root d /\ dot_entry n = false /\ Zlength d + 1 + Zlength n < C19_PATH_MAX
   | _ => below_root root (tfs_path o)
   end.
@@ -91,7 +91,7 @@ Proof.
     destruct (close_undone_ok root st pre st1 Hact Ecu) as [Fp [A1 [A2 _]]].
     destruct (conv v_tight_fixed root name) as [p|] eqn:Ec.
     + assert (B : below_root root p) by exact (conv_below v_tight_fixed root name p eq_refl Ec).
-      intro H; inversion H; subst. split.
+      rewrite A1. cbn [app]. intro H; inversion H; subst. split.
       * apply Forall_app. split; [exact Fp|repeat constructor; exact B].
       * intros _. simpl. right. exact B.
     + intro H; inversion H; subst. split; auto. intros _. simpl. left. reflexivity.
@@ -290,3 +290,45 @@ Example tight_args_nonvacuous :
   run_args env tinit0 [s_disable; s_ftproot; [47; 114]] = {| t_initted := true; t_enabled := false; t_root := [47; 114] |} /\
   run_args env tinit0 [s_ftproot; [47; 114; 47]; [45; 120]] = {| t_initted := true; t_enabled := true; t_root := [47; 114] |}.
 Proof. vm_compute. auto. Qed.
+
+(* ------------------------------------------------------------------ audit follow-up (notes/audit_B.md, C19 items 2 and 7) *)
+(* F19f: a second upload request while one is in progress loses the first descriptor (HandleFileUpload sets
+   uploadFD = -1 without closing it); nothing closes it later - it outlives the connection.  The flow with
+   notes/fix_C19_4.diff finishes the undone upload first (tight_every_entry_confined covers it: TLostFd is
+   not op_ok) *)
+Lemma tight_lost_fd_w :
+  tight_run v_tight_tree [47; 114] tstate0 [(true, TUpload [47; 97] true); (true, TUpload [47; 98] true); (true, TClose)]
+  = [TCreat [47; 114; 47; 97]; TLostFd; TCreat [47; 114; 47; 98]; TUnlink [47; 114; 47; 98]].
+Proof. vm_compute. reflexivity. Qed.
+
+Theorem tight_upload_fd_lost_refuted : exists root ms, In TLostFd (tight_run v_tight_tree root tstate0 ms).
+Proof. eexists. eexists. rewrite tight_lost_fd_w. right; left; reflexivity. Qed.
+
+(* F19e: "transfer enabled implies a non-empty root" is false: without a usable home directory (no passwd
+   entry, or its pw_dir not an openable directory) and without -ftproot, InitFileTransfer leaves
+   ftproot = "" and switches transfer on.  With the empty root [below_root] holds for EVERY absolute path
+   without ".." components (below_root_empty): the confinement theorems then say nothing, the whole file
+   system is offered.  ("-ftproot /" gives the same root, on purpose.) *)
+Theorem tight_enabled_implies_root_refuted : exists env args,
+  t_enabled (run_args env tinit0 args) = true /\ t_root (run_args env tinit0 args) = [].
+Proof.
+  exists {| pw_home := None; dir_ok := fun _ => true |}, [[45; 120]]. vm_compute. auto.
+Qed.
+
+Lemma below_root_empty : forall rel, stays_below_root (47 :: rel) = true -> below_root [] (47 :: rel).
+Proof. intros rel H. exists rel. split; [reflexivity|exact H]. Qed.
+
+(* with a usable home directory the initial root is that directory - non-empty *)
+Theorem tight_root_nonempty_with_home : forall env c h,
+  pw_home env = Some (c :: h) -> dir_ok env (c :: h) = true -> Zlength (c :: h) <= C19_PATH_MAX - 1 ->
+  strip_slash (c :: h) <> [] ->
+  t_enabled (init_ft env tinit0) = true /\ t_root (init_ft env tinit0) = strip_slash (c :: h).
+Proof.
+  intros env c h Hh Hd Hl _. unfold init_ft. cbn [tinit0 t_initted]. rewrite Hh. unfold set_root.
+  rewrite Hd. cbn [negb orb].
+  assert (E1 : Zlength (c :: h) =? 0 = false).
+  { apply Z.eqb_neq. rewrite Zlength_cons. pose proof (Zlength_correct h). lia. }
+  assert (E2 : Zlength (c :: h) >? C19_PATH_MAX - 1 = false).
+  { rewrite Z.gtb_ltb. apply Z.ltb_ge. exact Hl. }
+  rewrite E1, E2. cbn. split; reflexivity.
+Qed.
